@@ -85,12 +85,24 @@ use beve::Complex;
 use beve::from_slice as beve_from_slice;
 use serde::de::DeserializeOwned;
 use serde::{Deserialize, Serialize};
+#[cfg(repe_verif)]
+use crate::verif_seam::collections::HashMap;
+#[cfg(repe_verif)]
+use crate::verif_seam::sync::mpsc::{Receiver, SyncSender, sync_channel};
+#[cfg(repe_verif)]
+use crate::verif_seam::sync::{Arc, Mutex};
+#[cfg(repe_verif)]
+use crate::verif_seam::thread;
+#[cfg(not(repe_verif))]
 use std::collections::HashMap;
 use std::io::{self, Read, Write};
 use std::path::{Path, PathBuf};
 use std::sync::atomic::{AtomicU64, Ordering};
+#[cfg(not(repe_verif))]
 use std::sync::mpsc::{Receiver, SyncSender, sync_channel};
+#[cfg(not(repe_verif))]
 use std::sync::{Arc, Mutex};
+#[cfg(not(repe_verif))]
 use std::thread;
 
 /// The SVS contract version this implementation speaks, reported in the `open`
@@ -971,8 +983,12 @@ where
             io::copy(reader, &mut hold)?;
             hold.into_trailer()?
         };
+        #[cfg(repe_verif)]
+        crate::verif_seam::fs_event("before_sync", &guard.path, None);
         guard.file_mut().flush()?;
         guard.file_mut().sync_all()?;
+        #[cfg(repe_verif)]
+        crate::verif_seam::fs_event("synced", &guard.path, None);
         Ok((guard, digest, trailer))
     })?;
     // The stream terminated cleanly (a truncation would have surfaced as the pull
@@ -1195,8 +1211,12 @@ where
                 "svs: stream ended without a final chunk",
             )));
         }
+        #[cfg(repe_verif)]
+        crate::verif_seam::fs_event("before_sync", &guard.path, None);
         guard.file_mut().flush()?;
         guard.file_mut().sync_all()?;
+        #[cfg(repe_verif)]
+        crate::verif_seam::fs_event("synced", &guard.path, None);
         Ok(())
     })();
 
@@ -1230,6 +1250,8 @@ struct TempFile {
 impl TempFile {
     fn create(path: &Path) -> Result<Self, RepeError> {
         let file = std::fs::File::create(path)?;
+        #[cfg(repe_verif)]
+        crate::verif_seam::fs_event("created", path, None);
         Ok(Self {
             path: path.to_path_buf(),
             file: Some(file),
@@ -1242,8 +1264,12 @@ impl TempFile {
 
     fn commit(mut self, final_path: &Path) -> Result<(), RepeError> {
         self.file = None; // close before rename (Windows cannot rename an open file)
+        #[cfg(repe_verif)]
+        crate::verif_seam::fs_event("before_rename", &self.path, Some(final_path));
         match std::fs::rename(&self.path, final_path) {
             Ok(()) => {
+                #[cfg(repe_verif)]
+                crate::verif_seam::fs_event("after_rename", final_path, None);
                 self.path = final_path.to_path_buf(); // committed; Drop must not remove it
                 Ok(())
             }
@@ -1264,6 +1290,8 @@ impl Drop for TempFile {
             // Not committed — close and remove the partial temp file.
             self.file = None;
             let _ = std::fs::remove_file(&self.path);
+            #[cfg(repe_verif)]
+            crate::verif_seam::fs_event("removed", &self.path, None);
         }
     }
 }
@@ -1796,8 +1824,12 @@ pub async fn pull_to_file_async<C: AsyncSvsClient>(
     let (guard, bytes) = pull_consume_async(client, resource, move |mut reader| {
         let mut guard = TempFile::create(&tmp_path)?;
         let bytes = io::copy(&mut reader, guard.file_mut())?;
+        #[cfg(repe_verif)]
+        crate::verif_seam::fs_event("before_sync", &guard.path, None);
         guard.file_mut().flush()?;
         guard.file_mut().sync_all()?;
+        #[cfg(repe_verif)]
+        crate::verif_seam::fs_event("synced", &guard.path, None);
         Ok((guard, bytes))
     })
     .await?;
@@ -1841,8 +1873,12 @@ where
             };
             io::copy(&mut reader, &mut tee)?;
         }
+        #[cfg(repe_verif)]
+        crate::verif_seam::fs_event("before_sync", &guard.path, None);
         guard.file_mut().flush()?;
         guard.file_mut().sync_all()?;
+        #[cfg(repe_verif)]
+        crate::verif_seam::fs_event("synced", &guard.path, None);
         Ok((guard, digest))
     })
     .await?;
@@ -1915,8 +1951,12 @@ where
             io::copy(&mut reader, &mut hold)?;
             hold.into_trailer()?
         };
+        #[cfg(repe_verif)]
+        crate::verif_seam::fs_event("before_sync", &guard.path, None);
         guard.file_mut().flush()?;
         guard.file_mut().sync_all()?;
+        #[cfg(repe_verif)]
+        crate::verif_seam::fs_event("synced", &guard.path, None);
         Ok((guard, digest, trailer))
     })
     .await?;
